@@ -3,14 +3,15 @@ import PetgraphModel.Proofs.GraphMap
 import PetgraphModel.Proofs.GraphMapJudge
 /-
 C06 wave 2 — `GraphMap`: the table computed from the storage model (`graphMapTable`, Model/C06Views.lean) is
-consistent in every state that satisfies the representation invariant of C03 (`GMProofs.Inv`) and whose node
-values are below 100 (the harness's pair-id code `a * 100 + b` identifies an edge only there).
+consistent in every state that satisfies the representation invariant of C03 (`GMProofs.Inv`) — no bound on the
+node values (wave 5: the pair-id code `pcode a b` is injective on all pairs).
 -/
 namespace PetgraphModel.Visit
 open PetgraphModel PetgraphModel.GM PetgraphModel.GMProofs PetgraphModel.SimpleGraphSpec
 open PetgraphModel.Visit.GMView
 
-/-- every node value is below 100 -/
+/-- every node value is below 100 (wave 2 needed this for the old pair code `a * 100 + b`; no theorem needs it any more,
+the definition is kept for the callers that still state it) -/
 def GMBounded (s : State) : Prop := ∀ n ∈ nodesOf s, n < 100
 
 /-- `edge_references` of the table -/
@@ -40,28 +41,28 @@ theorem edge_facts (s : State) (h : Inv s) {a b w : Nat} (hg : IMap.get? s.edges
   exact ⟨h.good.canon a b hs, (mem_nodesOf s a).2 this.1, (mem_nodesOf s b).2 this.2⟩
 
 theorem code_of_edge (s : State) (h : Inv s) {a b w : Nat} (hg : IMap.get? s.edges (a, b) = some w) :
-    pairCode (!s.directed) a b = a * 100 + b := by
+    pairCode (!s.directed) a b = pcode a b := by
   rcases (edge_facts s h hg).1 with hd | hle
   · simp [hd, pairCode_false]
   · exact pairCode_le _ hle
 
 /-- the id code is injective on the entries of the edge map -/
-theorem code_inj_edges (s : State) (h : Inv s) (hb : GMBounded s) {a b w a' b' w' : Nat}
+theorem code_inj_edges (s : State) (h : Inv s) {a b w a' b' w' : Nat}
     (h1 : IMap.get? s.edges (a, b) = some w) (h2 : IMap.get? s.edges (a', b') = some w')
     (hc : pairCode (!s.directed) a b = pairCode (!s.directed) a' b') : a = a' ∧ b = b' ∧ w = w' := by
   rw [code_of_edge s h h1, code_of_edge s h h2] at hc
   have f1 := edge_facts s h h1
   have f2 := edge_facts s h h2
-  obtain ⟨rfl, rfl⟩ := code_inj (hb _ f1.2.2) (hb _ f2.2.2) hc
+  obtain ⟨rfl, rfl⟩ := code_inj hc
   rw [h1] at h2
   exact ⟨rfl, rfl, by simpa using h2⟩
 
-theorem gmERefs_ids_nodup (s : State) (h : Inv s) (hb : GMBounded s) : ((gmERefs s).map (·.id)).Nodup := by
+theorem gmERefs_ids_nodup (s : State) (h : Inv s) : ((gmERefs s).map (·.id)).Nodup := by
   unfold gmERefs
   rw [List.map_map]
   apply nodup_map_of_inj_on _ _ (allEdges_ok s h).1
   rintro ⟨a, b, w⟩ hx ⟨a', b', w'⟩ hy hc
-  obtain ⟨rfl, rfl, rfl⟩ := code_inj_edges s h hb ((mem_allEdges s h _ _ _).1 hx) ((mem_allEdges s h _ _ _).1 hy) hc
+  obtain ⟨rfl, rfl, rfl⟩ := code_inj_edges s h ((mem_allEdges s h _ _ _).1 hx) ((mem_allEdges s h _ _ _).1 hy) hc
   rfl
 
 /-! ### node clauses -/
@@ -131,15 +132,15 @@ theorem gm_compact (s : State) (h : Inv s) : compactOk (graphMapTable s) := by
 
 /-! ### edge clauses -/
 
-theorem gm_erefs (s : State) (h : Inv s) (hb : GMBounded s) : erefsOk (graphMapTable s) := by
+theorem gm_erefs (s : State) (h : Inv s) : erefsOk (graphMapTable s) := by
   simp only [erefsOk, graphMapTable, whenSome_some]
-  refine ⟨gmERefs_ids_nodup s h hb, ?_, ?_⟩
+  refine ⟨gmERefs_ids_nodup s h, ?_, ?_⟩
   · simp [edgeCount, allEdges]
   · intro e he
     obtain ⟨a, b, w, hg, rfl⟩ := (mem_gmERefs s h e).1 he
     exact (edge_facts s h hg).2
 
-theorem gm_eix (s : State) (h : Inv s) (hb : GMBounded s) : eixOk (graphMapTable s) := by
+theorem gm_eix (s : State) (h : Inv s) : eixOk (graphMapTable s) := by
   simp only [eixOk, graphMapTable, whenSome_some, List.map_map, Function.comp_def]
   intro e he
   obtain ⟨⟨a, b, w⟩, hm, rfl⟩ := List.mem_map.1 he
@@ -150,7 +151,7 @@ theorem gm_eix (s : State) (h : Inv s) (hb : GMBounded s) : eixOk (graphMapTable
     (allEdges s)
     (by
       rintro ⟨a, b, w⟩ hx ⟨a', b', w'⟩ hy hc
-      obtain ⟨rfl, rfl, rfl⟩ := code_inj_edges s h hb ((mem_allEdges s h _ _ _).1 hx) ((mem_allEdges s h _ _ _).1 hy) hc
+      obtain ⟨rfl, rfl, rfl⟩ := code_inj_edges s h ((mem_allEdges s h _ _ _).1 hx) ((mem_allEdges s h _ _ _).1 hy) hc
       rfl)
     (a, b, w) hm
   simp only [eref_some] at hl ⊢
@@ -199,9 +200,9 @@ theorem orientIn_eq (a : Nat) (e : ERef) (h : e.tgt = a) : orientIn a e = e := b
 theorem orientIn_ne (a : Nat) (e : ERef) (h : e.tgt ≠ a) : orientIn a e = e.swap := by simp [orientIn, h]
 
 /-- `edges_directed(a, Outgoing)` is, as a multiset, what the specification prescribes from `edge_references` -/
-theorem gm_out_perm (s : State) (h : Inv s) (hb : GMBounded s) (a : Nat) :
+theorem gm_out_perm (s : State) (h : Inv s) (a : Nat) :
     ((edgesDirected s a .out).map (eref s)).Perm (expOut s.directed (gmERefs s) a) := by
-  apply perm_of_nodup_mem (edgesDirected_map_nodup s h a .out) (expOut_nodup (gmERefs_ids_nodup s h hb) a)
+  apply perm_of_nodup_mem (edgesDirected_map_nodup s h a .out) (expOut_nodup (gmERefs_ids_nodup s h) a)
   intro e
   rw [mem_edgesDirected_map s h]
   have ht := (edgeTriples_ok s h a .out).2
@@ -247,9 +248,9 @@ theorem gm_out_perm (s : State) (h : Inv s) (hb : GMBounded s) (a : Nat) :
         simp [ERef.swap, pairCode_comm x y]
 
 /-- `edges_directed(a, Incoming)` -/
-theorem gm_in_perm (s : State) (h : Inv s) (hb : GMBounded s) (a : Nat) :
+theorem gm_in_perm (s : State) (h : Inv s) (a : Nat) :
     ((edgesDirected s a .inc).map (eref s)).Perm (expIn s.directed (gmERefs s) a) := by
-  apply perm_of_nodup_mem (edgesDirected_map_nodup s h a .inc) (expIn_nodup (gmERefs_ids_nodup s h hb) a)
+  apply perm_of_nodup_mem (edgesDirected_map_nodup s h a .inc) (expIn_nodup (gmERefs_ids_nodup s h) a)
   intro e
   rw [mem_edgesDirected_map s h]
   have ht := (edgeTriples_ok s h a .inc).2
@@ -302,30 +303,30 @@ theorem nbrs_of_edges_in (s : State) (a : Nat) :
     neighborsDirected s a .inc = ((edgesDirected s a .inc).map (eref s)).map (·.src) := by
   simp [edgesDirected, List.map_map, Function.comp_def, eref]
 
-theorem gm_edgesOut (s : State) (h : Inv s) (hb : GMBounded s) : edgesOutOk (nodesOf s) (graphMapTable s) := by
+theorem gm_edgesOut (s : State) (h : Inv s) : edgesOutOk (nodesOf s) (graphMapTable s) := by
   simp only [edgesOutOk, graphMapTable, whenSome_some]
-  exact rowsMatch_rowsOver fun a _ => gm_out_perm s h hb a
+  exact rowsMatch_rowsOver fun a _ => gm_out_perm s h a
 
-theorem gm_edges (s : State) (h : Inv s) (hb : GMBounded s) : edgesOk (nodesOf s) (graphMapTable s) := by
+theorem gm_edges (s : State) (h : Inv s) : edgesOk (nodesOf s) (graphMapTable s) := by
   simp only [edgesOk, graphMapTable, whenSome_some]
-  exact rowsMatch_rowsOver fun a _ => by rw [edgesOf_eq s h]; exact gm_out_perm s h hb a
+  exact rowsMatch_rowsOver fun a _ => by rw [edgesOf_eq s h]; exact gm_out_perm s h a
 
-theorem gm_edgesIn (s : State) (h : Inv s) (hb : GMBounded s) : edgesInOk (nodesOf s) (graphMapTable s) := by
+theorem gm_edgesIn (s : State) (h : Inv s) : edgesInOk (nodesOf s) (graphMapTable s) := by
   simp only [edgesInOk, graphMapTable, whenSome_some]
-  exact rowsMatch_rowsOver fun a _ => gm_in_perm s h hb a
+  exact rowsMatch_rowsOver fun a _ => gm_in_perm s h a
 
-theorem gm_nbrsOut (s : State) (h : Inv s) (hb : GMBounded s) : nbrsOutOk (nodesOf s) (graphMapTable s) := by
+theorem gm_nbrsOut (s : State) (h : Inv s) : nbrsOutOk (nodesOf s) (graphMapTable s) := by
   simp only [nbrsOutOk, graphMapTable, whenSome_some]
-  exact rowsMatch_rowsOver fun a _ => by rw [nbrs_of_edges_out]; exact (gm_out_perm s h hb a).map _
+  exact rowsMatch_rowsOver fun a _ => by rw [nbrs_of_edges_out]; exact (gm_out_perm s h a).map _
 
-theorem gm_nbrs (s : State) (h : Inv s) (hb : GMBounded s) : nbrsOk (nodesOf s) (graphMapTable s) := by
+theorem gm_nbrs (s : State) (h : Inv s) : nbrsOk (nodesOf s) (graphMapTable s) := by
   simp only [nbrsOk, graphMapTable, whenSome_some]
   exact rowsMatch_rowsOver fun a _ => by
-    rw [neighbors_eq s h, nbrs_of_edges_out]; exact (gm_out_perm s h hb a).map _
+    rw [neighbors_eq s h, nbrs_of_edges_out]; exact (gm_out_perm s h a).map _
 
-theorem gm_nbrsIn (s : State) (h : Inv s) (hb : GMBounded s) : nbrsInOk (nodesOf s) (graphMapTable s) := by
+theorem gm_nbrsIn (s : State) (h : Inv s) : nbrsInOk (nodesOf s) (graphMapTable s) := by
   simp only [nbrsInOk, graphMapTable, whenSome_some]
-  exact rowsMatch_rowsOver fun a _ => by rw [nbrs_of_edges_in]; exact (gm_in_perm s h hb a).map _
+  exact rowsMatch_rowsOver fun a _ => by rw [nbrs_of_edges_in]; exact (gm_in_perm s h a).map _
 
 /-! ### adjacency -/
 
@@ -371,20 +372,20 @@ theorem gm_adj (s : State) (h : Inv s) : adjOk (nodesOf s) (graphMapTable s) := 
 
 /-! ### the table of `GraphMap` is consistent -/
 
-theorem graphMapTable_consistent (s : State) (h : Inv s) (hb : GMBounded s) :
+theorem graphMapTable_consistent (s : State) (h : Inv s) :
     TableConsistent (nodesOf s) (graphMapTable s) where
   ids := gm_ids s h
   refs := gm_refs s
   index := gm_index s h
   compact := gm_compact s h
-  erefs := gm_erefs s h hb
-  eix := gm_eix s h hb
-  nbrs := gm_nbrs s h hb
-  nbrsOut := gm_nbrsOut s h hb
-  nbrsIn := gm_nbrsIn s h hb
-  edges := gm_edges s h hb
-  edgesOut := gm_edgesOut s h hb
-  edgesIn := gm_edgesIn s h hb
+  erefs := gm_erefs s h
+  eix := gm_eix s h
+  nbrs := gm_nbrs s h
+  nbrsOut := gm_nbrsOut s h
+  nbrsIn := gm_nbrsIn s h
+  edges := gm_edges s h
+  edgesOut := gm_edgesOut s h
+  edgesIn := gm_edgesIn s h
   adj := gm_adj s h
 
 /-- the looked-up weights the per-node edge iterators report are present (no `unreachable!()`), so the `0`
